@@ -225,7 +225,9 @@ class Legacy(object):
     def rows(self):
         """enumerate (ht, idx-vs-nin ordering, idx-vs-nout ordering) -> (path, env)"""
         tr = Tracer(self.repo, self.fi.module)
-        for ht in range(256):
+        # every byte value, and hash types outside a byte (the type is a 32-bit quantity: bit 0x80 and the low five bits
+        # select, whatever the other bits are)
+        for ht in list(range(256)) + WIDE_HASHTYPES:
             for on, idx, nin in (('idx<nin', 1, 2), ('idx=nin', 2, 2), ('idx>nin', 3, 2)):
                 for oo, nout in (('idx<nout', idx + 1), ('idx=nout', idx), ('idx>nout', idx - 1)):
                     env = {self.p_ht: ht, self.p_idx: idx,
@@ -708,6 +710,9 @@ class Legacy(object):
             'outputs': 'none' if base == 2 else ('single' if base == 3 else 'all'),
         }
         return want
+
+
+WIDE_HASHTYPES = [0x100, 0x101, 0x102, 0x103, 0x181, 0x183, 0x7fffff02, 0x7fffff83, -1, -126, -125, -128]
 
 
 def _mentions(node, name):
